@@ -491,3 +491,7 @@ def check(ctx: Ctx) -> None:
         dd = [c for c in repo.calls_in(f_sf) if unparse(c.func) == "textwrap.dedent"]
         if len(dd) != 1:
             ob.violation(f_sf, f_sf.node, "nested function source is not dedented before compilation")
+
+    # "remote tracebacks name the original file and line": the RemoteError that carries them is stored before any waiter is woken
+    from ..report import borrow
+    borrow(ctx, "C07", {"C07.f": "C06.i"})
